@@ -1204,6 +1204,14 @@ class TdlChannel:
             else:
                 assert isinstance(carrier_indexes, (np.ndarray, list))
                 block_size = len(carrier_indexes)
+                # Validate the indexes now: an out of range index must not
+                # be found only after fading samples have been consumed.
+                idx_array = np.asarray(carrier_indexes)
+                if idx_array.size > 0 and (idx_array.min() < -fft_size
+                                           or idx_array.max() >= fft_size):
+                    raise IndexError(
+                        "carrier_indexes out of bounds for fft_size "
+                        "{0}".format(fft_size))
 
         if num_symbols % block_size != 0:
             raise ValueError("The num of elements in `signal` must be a "
